@@ -1,6 +1,6 @@
 (* Properties_C06.v — C06: an already applied patch is detected, not applied a second time.
    Statements only; proofs in Proofs_Reapply.v. *)
-From PatchV Require Import Base Lines Hunk Locator Options Applier Spec_Locate Spec_Apply Proofs_Conf Proofs_Reapply.
+From PatchV Require Import Base Lines Hunk Locator Options Applier Spec_Locate Spec_Apply Proofs_Conf Proofs_Reapply Formatter LineParser Parser World Driver Proofs_Touch Proofs_Reverse Proofs_DriverMore.
 
 (* -N: when the first hunk no longer applies perfectly and its reverse does (or the hunk does not apply at all and its
    reverse applies somehow), nothing is applied: the file comes out unchanged, every hunk is counted as rejected, the
@@ -53,3 +53,91 @@ Proof.
   - unfold Conforming. apply (Conf_cons 0 0 [] ex_h [] [] []); try reflexivity; [discriminate|constructor].
   - vm_compute. repeat split; reflexivity.
 Qed.
+
+(* ---------------------------------------------------------------------------------------------------------------
+   C06 at driver level (process_section, finalize_writes); proofs in Proofs_DriverMore.v, non-vacuity Examples and
+   whole-program vm_compute runs in Properties_DriverMore.v. *)
+(* apply level, total: under -N (no -f, no -D, not --verbose, rejects written in unified format) a patch whose first hunk looks
+   reversed cannot make apply_patch fail; the lines come out unchanged, every hunk is counted as failed, the run is marked
+   skipped, the message and the reject bytes are exactly these *)
+Theorem apply_ignored_total : forall o f p h hs,
+  define_macro o = [] -> verbose o = false -> force o = false -> ignore_reversed o = true ->
+  should_write_as_unified o p = true ->
+  hunks (effective o p) = h :: hs ->
+  looks_reversed o (effective o p) f h ->
+  exists r, apply_patch o f p = Ok r /\ r_out r = f /\ r_failed r = length (hunks p) /\ r_skipped r = true /\
+            r_msgs r = skipping_msg o /\
+            r_rej r = skipped_rejects (effective o p) (h :: hs) /\
+            length (hunks (r_patch r)) = length (hunks p).
+Proof. exact Proofs_DriverMore.apply_ignored_total. Qed.
+Print Assumptions apply_ignored_total.
+
+(* One change section for a regular file f of the working directory which already holds the patched content, run with -N
+   (ignoring_options: file chosen from the patch, no -o, no -r, no --dry-run, no -D, not --verbose, no -f, -N; -b and
+   --backup-if-mismatch are free), no reject file there: the section performs exactly two operations, the opening of f for
+   reading and the creation of f.rej; the tree afterwards is the tree before with f.rej added (permissions 0666 & ~umask);
+   the state has the failure flag set (exit status 1) and the two messages. *)
+Theorem section_ignored_N : forall o p f h hs st s w data mode,
+  ignoring_options o -> should_write_as_unified o p = true ->
+  poper p = OpChange -> prereq p = [] -> old_path p = f -> new_path p = f -> f <> devnull -> f <> [] -> ~ In 47%N f ->
+  hunks (effective o p) = h :: hs -> looks_reversed o (effective o p) (split_lines data) h ->
+  fault w = None -> deferred_writes st = [] ->
+  lookup (fs w) f = Some (Reg data mode) -> (mode < 4096)%N -> owner_r mode = true ->
+  (N.land mode write_mask <> 0%N \/ read_only o <> ROFail) ->
+  lookup (fs w) (f ++ bs ".rej") = None ->
+  let rej := skipped_rejects (effective o p) (h :: hs) in
+  let st' := ignored_state st (skipping_msg o) (length (hunks p)) (length (hunks p)) in
+  exists w',
+    process_section o st false p s w = (Ok (st', s), w') /\
+    fs w' = upd (fs w) (f ++ bs ".rej") (Reg rej (created_mode (umask w))) /\
+    trace w' = trace w ++ [OOpenRead f; OWrite (f ++ bs ".rej") rej] /\
+    fault w' = None /\ umask w' = umask w /\ stdout_data w' = stdout_data w.
+Proof. exact Proofs_DriverMore.section_ignored_N. Qed.
+Print Assumptions section_ignored_N.
+
+(* the same when a writable regular reject file is there already: it is overwritten and keeps its mode *)
+Theorem section_ignored_N_over : forall o p f h hs st s w data mode rdata rmode,
+  ignoring_options o -> should_write_as_unified o p = true ->
+  poper p = OpChange -> prereq p = [] -> old_path p = f -> new_path p = f -> f <> devnull -> f <> [] -> ~ In 47%N f ->
+  hunks (effective o p) = h :: hs -> looks_reversed o (effective o p) (split_lines data) h ->
+  fault w = None -> deferred_writes st = [] ->
+  lookup (fs w) f = Some (Reg data mode) -> (mode < 4096)%N -> owner_r mode = true ->
+  (N.land mode write_mask <> 0%N \/ read_only o <> ROFail) ->
+  lookup (fs w) (f ++ bs ".rej") = Some (Reg rdata rmode) -> owner_w rmode = true ->
+  let rej := skipped_rejects (effective o p) (h :: hs) in
+  let st' := ignored_state st (skipping_msg o) (length (hunks p)) (length (hunks p)) in
+  exists w',
+    process_section o st false p s w = (Ok (st', s), w') /\
+    fs w' = upd (fs w) (f ++ bs ".rej") (Reg rej rmode) /\
+    trace w' = trace w ++ [OOpenRead f; OWrite (f ++ bs ".rej") rej] /\
+    fault w' = None /\ umask w' = umask w /\ stdout_data w' = stdout_data w.
+Proof. exact Proofs_DriverMore.section_ignored_N_over. Qed.
+Print Assumptions section_ignored_N_over.
+
+(* in the words of the claim: f is byte-identical (and keeps its mode), nothing is at its backup name that was not there,
+   every entry but f.rej is what it was, f.rej starts with the reject header, the operations are one read of f and one write
+   of f.rej, the failure flag is set, "n out of n hunks ignored" is reported after the "Skipping patch." message *)
+Theorem section_ignored_N_frame : forall o p f h hs st s w data mode,
+  ignoring_options o -> should_write_as_unified o p = true ->
+  poper p = OpChange -> prereq p = [] -> old_path p = f -> new_path p = f -> f <> devnull -> f <> [] -> ~ In 47%N f ->
+  hunks (effective o p) = h :: hs -> looks_reversed o (effective o p) (split_lines data) h ->
+  fault w = None -> deferred_writes st = [] ->
+  lookup (fs w) f = Some (Reg data mode) -> (mode < 4096)%N -> owner_r mode = true ->
+  (N.land mode write_mask <> 0%N \/ read_only o <> ROFail) ->
+  lookup (fs w) (f ++ bs ".rej") = None ->
+  exists st' w' rest,
+    process_section o st false p s w = (Ok (st', s), w') /\
+    lookup (fs w') f = Some (Reg data mode) /\
+    (backup_name o f <> f ++ bs ".rej" -> lookup (fs w') (backup_name o f) = lookup (fs w) (backup_name o f)) /\
+    (forall q, q <> f ++ bs ".rej" -> lookup (fs w') q = lookup (fs w) q) /\
+    lookup (fs w') (f ++ bs ".rej") =
+      Some (Reg (write_patch_header_as_unified (effective o p) ++ rest) (created_mode (umask w))) /\
+    Forall (fun op => op = OOpenRead f \/ exists d, op = OWrite (f ++ bs ".rej") d) (skipn (length (trace w)) (trace w')) /\
+    had_failure st' = true /\ backed_up st' = backed_up st /\ deferred_writes st' = [] /\
+    deferred_removals st' = deferred_removals st /\
+    events st' = events st ++ skipping_msg o
+                 ++ inform_hunks_failed (bs "ignored") (length (hunks p)) (length (hunks p)) ++ [10%N] /\
+    fault w' = None.
+Proof. exact Proofs_DriverMore.section_ignored_N_frame. Qed.
+Print Assumptions section_ignored_N_frame.
+
